@@ -2238,6 +2238,9 @@ func (c *Ctx) c19Layouts(g *Gen, corr *[]corrCase) {
 	for i := 0; i < c.n(60, 3000); i++ {
 		nasSizes = append(nasSizes, 1+g.r.Intn(70000), 1+g.r.Intn(3000))
 	}
+	for i := 0; i < c.n(1500, 20000); i++ { // many short PDUs: the shapes of the byte generator (self-describing lengths, dictionary octets, earlier encodings) in volume
+		nasSizes = append(nasSizes, 3+g.r.Intn(40))
+	}
 	for i, n := range nasSizes {
 		id := g.u8()
 		nas := hx(g.bytes(n))
